@@ -105,6 +105,9 @@ def extraction(tier="quick", seed=0):
             cases += 1
             td = EK.make_tree_dist(0.8)
             before = td.log_p_one(tree) if tree.get_number_of_nodes() else None
+            if tree.get_number_of_nodes():
+                td.compute_both_log_p_and_log_p_one(tree)  # every density entry point has been used once under the old value
+                td.log_p(tree)
             rec = Rec()
             update_concentration_value(rec, tree, td)
             K = len(tree.nodes)
@@ -116,4 +119,8 @@ def extraction(tier="quick", seed=0):
             td2 = EK.make_tree_dist(3.25)
             if abs(td.log_p_one(tree) - td2.log_p_one(tree)) > 1e-10 or abs(td.log_p(tree) - td2.log_p(tree)) > 1e-10:
                 problems.append("%s: densities after the update differ from a fresh distribution at the new alpha" % T.describe(tree))
+            if tree.get_number_of_nodes():
+                b1, b2 = td.compute_both_log_p_and_log_p_one(tree), td2.compute_both_log_p_and_log_p_one(tree)
+                if abs(b1[0] - b2[0]) > 1e-10 or abs(b1[1] - b2[1]) > 1e-10:
+                    problems.append("%s: compute_both_log_p_and_log_p_one after the update differs from a fresh distribution at the new alpha (a value from the old alpha is reused)" % T.describe(tree))
     return {"cases": cases, "problems": problems}
